@@ -38,7 +38,7 @@ def build_interest(ex):
 
 
 PLAN = dict(
-    id="C01",
+    id="C01", api_files=['tracing-core/src/callsite.rs'],
     level="proof",
     explanation="Cache soundness as an inductive invariant I1 (the cached interest of every registered callsite is the Interest::and-fold over a list that contains every live collector; MAX_LEVEL bounds every live collector's hint). Interest::and is extracted from /repo and proved against its spec in Verus; the fold lemma (unbounded number of collectors), preservation of I1 by new/drop/register/rebuild and the guard lemma (with I1 and a self-consistent current collector the macro guard passes iff the collector's own filter accepts) are Verus lemmas whose hypotheses are the function contracts that Kani discharges on the real tracing-core: rebuild_callsite_interest and rebuild_interest from ARBITRARY prior cache bytes / MAX_LEVEL (bounded: 3 registrars, live or dropped, x 2 callsites), LinkedList push/for_each (bounded 3). The real event!/span!/enabled! expansions with the real MacroCallsite and global registry are checked in the thorough tier (first hit and cached hit, symbolic other collector).",
     functions_under_contract=['tracing-core/src/collect.rs: Interest::and, Interest::sometimes (Verus, extracted)', 'tracing-core/src/callsite.rs: rebuild_callsite_interest, rebuild_interest, LinkedList::push, LinkedList::for_each (Kani, in-module)', 'tracing/src/macros.rs event!/span!/enabled! + tracing/src/lib.rs MacroCallsite::{interest,register,is_enabled,set_interest} + callsite::register / register_dispatch (Kani, thorough tier)'],
